@@ -81,3 +81,92 @@ pub fn sniff_case(data: &[u8]) -> Option<SniffCase> {
     };
     Some(SniffCase { stream, cuts, pendings, tail: (flags >> 1) as u16 % 40, eof_now: flags & 1 != 0 })
 }
+
+/// Bytes -> adapter program (engine iomodel, C18).
+pub fn io_case(data: &[u8]) -> Option<crate::engines::iomodel::IoCase> {
+    use crate::engines::iomodel::{IoCase, IoOp, REv, WEv};
+    let mut u = Unstructured::new(data);
+    let head: [u8; 4] = u.arbitrary().ok()?;
+    let adapter = head[0] % 7;
+    let prefix = (head[1] as u16) % 64;
+    let inner_vectored = head[2] & 1 != 0;
+    let (nr, nw) = ((head[2] >> 1) as usize % 12, (head[3] as usize) % 12);
+    let mut rscript = vec![];
+    for _ in 0..nr {
+        let a: [u8; 2] = u.arbitrary().ok()?;
+        rscript.push(match a[0] % 8 {
+            0 => REv::Pending,
+            1 => REv::Err(a[1]),
+            2 => REv::Eof,
+            _ => REv::Data(if a[0] & 0x80 != 0 { a[1] as u16 * 13 } else { a[1] as u16 % 9 }),
+        });
+    }
+    let mut wscript = vec![];
+    for _ in 0..nw {
+        let a: [u8; 2] = u.arbitrary().ok()?;
+        wscript.push(match a[0] % 6 {
+            0 => WEv::Pending,
+            1 => WEv::Err(a[1]),
+            _ => WEv::Accept(if a[0] & 0x80 != 0 { a[1] as u16 * 13 } else { a[1] as u16 % 9 }),
+        });
+    }
+    let mut ops = vec![];
+    while ops.len() < 40 {
+        let Ok(a) = u.arbitrary::<[u8; 2]>() else { break };
+        ops.push(match a[0] % 8 {
+            0 | 1 | 2 => IoOp::Read { cap: if a[0] & 0x80 != 0 { a[1] as u16 * 9 } else { a[1] as u16 % 5 }, prefill: a[0] >> 3 & 7 },
+            3 | 4 => IoOp::Write { len: if a[0] & 0x80 != 0 { a[1] as u16 * 9 } else { a[1] as u16 % 5 } },
+            5 => {
+                let n = (a[1] % 5) as usize;
+                let mut lens = vec![];
+                for _ in 0..n {
+                    lens.push(u.arbitrary::<u8>().ok()? as u16 % 70);
+                }
+                IoOp::WriteVectored { lens }
+            }
+            6 => IoOp::Flush,
+            _ => IoOp::Shutdown,
+        });
+    }
+    Some(IoCase { adapter, prefix, ops, rscript, wscript, inner_vectored })
+}
+
+/// Bytes -> request (engine reqgrammar, C13 / C17): table indices plus, optionally, a host taken
+/// verbatim from the input (kept only if the http crate accepts it as a host).
+pub fn req_case(data: &[u8]) -> Option<crate::engines::reqgrammar::ReqCase> {
+    use crate::engines::reqgrammar::ReqCase;
+    let mut u = Unstructured::new(data);
+    let a: [u8; 12] = u.arbitrary().ok()?;
+    let port = match a[2] % 6 {
+        0 | 1 => None,
+        2 => Some(80),
+        3 => Some(443),
+        _ => Some(u16::from_le_bytes([a[3], a[4]])),
+    };
+    let ghost = if a[0] & 0x80 != 0 {
+        let n = (a[1] as usize % 40).min(u.len());
+        let raw = u.bytes(n).ok()?;
+        let h = std::str::from_utf8(raw).ok()?.to_string();
+        if !format!("https://{h}/").parse::<http::Uri>().map(|x| x.host().is_some()).unwrap_or(false) {
+            return None;
+        }
+        Some(h)
+    } else {
+        None
+    };
+    Some(ReqCase {
+        scheme: a[0] % 6,
+        host: a[1] % 14,
+        ghost,
+        port,
+        path: a[5] % 11,
+        query: if a[6] & 1 != 0 { Some(a[6] >> 1) } else { None },
+        form: [0, 0, 0, 0, 0, 1, 2, 3][a[7] as usize % 8],
+        method: a[8] % 11,
+        version: a[9] % 5,
+        caller_host: if a[10] & 1 != 0 { Some(a[10] >> 1) } else { None },
+        preset: a[11],
+        conn_h2: a[7] & 0x80 != 0,
+        body: a[10] >> 4,
+    })
+}
